@@ -18,6 +18,7 @@ inductive CondErr where
   | noUncertaintyInput     -- "No input uncertainty specified."
   | bothSigmaAndFactor     -- "One can specify either `sigma` or `y_cov_factor` …"
   | notPosDef              -- "Covariance not positively definite with jitter=…"
+  | noiseShape             -- "The input noise describes … points but there are … landmarks"
   | noCovariance           -- `_check_covariance`
   | noUncertainty          -- `_check_uncertainty`
   | internal
@@ -70,6 +71,13 @@ def sigmaFactor {n : Nat} : Sigma α n → Option (AnyMat α)
   | .none => Option.none
   | .scalar s => some ⟨n, n, Mat.ofFn fun i k => if i = k then s else 0⟩
   | .vec v => some ⟨n, n, Mat.ofFn fun i k => if i = k then v.nth i else 0⟩
+
+/-- `_sigma_to_y_cov_factor` for a sigma typed by the landmark count `m` but a factor requested with
+    `rows` rows: a scalar gives `sigma·I_rows`, a vector always `diag(sigma)` (`m × m`). -/
+def sigmaFactorRows {m : Nat} (rows : Nat) : Sigma α m → Option (AnyMat α)
+  | .none => Option.none
+  | .scalar s => some ⟨rows, rows, Mat.ofFn fun i k => if i = k then s else 0⟩
+  | .vec v => some ⟨m, m, Mat.ofFn fun i k => if i = k then v.nth i else 0⟩
 
 /-- `_sigma_to_y_cov_factor(sigma, y_cov_factor, n)`. -/
 def sigmaToYCovFactor {n : Nat} (sigma : Sigma α n) (ycf : Option (AnyMat α)) :
@@ -163,32 +171,37 @@ def matMulAny {a b : Nat} (A : Mat α a b) (M : AnyMat α) : Except CondErr (Any
   if M.r ≠ b then .error .internal
   else .ok ⟨a, M.c, Mat.ofFn fun i k => nsum b fun t => A.el i t * M.el t k⟩
 
-/-- `LLB = A Aᵀ + noise` of `_LandmarksConditional.__init__` and the `y_cov_factor` left afterwards.
-    The noise factor is sized by the number of landmarks `m`
-    (`_sigma_to_y_cov_factor(sigma, y_cov_factor, xu.shape[0])`). -/
+/-- `LLB = A Aᵀ + noise` of `_LandmarksConditional.__init__`.  The noise factor is sized by the number
+    of landmarks `m` (`_sigma_to_y_cov_factor(sigma, y_cov_factor, xu.shape[0])`); a factor that does
+    not describe `m` points (a per-cell sigma with `m ≠ n`, a supplied `n`-row factor) is refused with
+    a `ValueError`. -/
 def lmLLB {m : Nat} (AAt : Mat α m m) (sigma : Sigma α m) (jitter : α) (ycf : Option (AnyMat α))
-    (yIsMean : Bool) : Except CondErr (Mat α m m × Option (AnyMat α)) :=
-  if yIsMean then .ok (stabilize AAt jitter, ycf)
+    (yIsMean : Bool) : Except CondErr (Mat α m m) :=
+  if yIsMean then .ok (stabilize AAt jitter)
   else
     match sigmaToYCovFactor sigma ycf with
     | .error e => .error e
     | .ok F =>
-      match addVariance AAt (some F) jitter with
-      | .error e => .error e
-      | .ok LLB => .ok (LLB, some F)
+      if F.r ≠ m then .error .noiseShape
+      else addVariance AAt (some F) jitter
 
 /-- DTC weights: `Lᵀ w = z`, `(A Aᵀ + noise) z = A r`. -/
 def lmWeights {n m c : Nat} (L LB : Mat α m m) (A : Mat α m n) (r : Mat α n c) : Mat α m c :=
   solveUpperTM L (choSolveM LB (matMul A r))
 
-/-- `W` of `_LandmarksConditional` (`with_uncertainty`): the factor is the supplied `y_cov_factor`
-    or, when there is none, `_sigma_to_y_cov_factor(sigma, None, m)` (the `ValueError` of a missing
-    noise specification); `dot(A, factor)` needs `n` rows. -/
-def lmUnc {n m : Nat} (L LB : Mat α m m) (A : Mat α m n) (sigma : Sigma α m) (ycf' : Option (AnyMat α)) :
+/-- `W` of `_LandmarksConditional` (`with_uncertainty`): the input noise acts on the `n`
+    observations, so the factor is `_sigma_to_y_cov_factor(sigma, y_cov_factor, x.shape[0])` built from
+    the *original* arguments (the supplied factor, or `sigma·I_n`; a missing noise specification is
+    the documented `ValueError`); `dot(A, factor)` needs `n` rows. -/
+def lmUnc {n m : Nat} (L LB : Mat α m m) (A : Mat α m n) (sigma : Sigma α m) (ycf : Option (AnyMat α)) :
     Except CondErr (AnyMat α) :=
-  let F? : Except CondErr (AnyMat α) := match ycf' with
-    | some F => .ok F
-    | Option.none => sigmaToYCovFactor sigma Option.none
+  let F? : Except CondErr (AnyMat α) := match sigma, ycf with
+    | .none, Option.none => .error .noUncertaintyInput
+    | s, some M => if s.anyPos then .error .bothSigmaAndFactor else .ok M
+    | s, Option.none =>
+      match sigmaFactorRows n s with
+      | some M => .ok M
+      | Option.none => .error .noUncertaintyInput
   match F? with
   | .error e => .error e
   | .ok F =>
@@ -207,7 +220,7 @@ def lmCondInit {n m d c : Nat} (cov : Cov α) (x : Mat α n d) (xu : Mat α m d)
     let A := solveLowerM L (gram cov xu x)      -- m × n
     match lmLLB (matMulT A A) sigma jitter ycf yIsMean with
     | .error e => .error e
-    | .ok (LLB, ycf') =>
+    | .ok LLB =>
       match chol? LLB with
       | Option.none => .error .notPosDef
       | some LB =>
@@ -216,8 +229,7 @@ def lmCondInit {n m d c : Nat} (cov : Cov α) (x : Mat α n d) (xu : Mat α m d)
           .ok { cov := cov, xb := xu, weights := weights, mu := mu, jitter := jitter, nObs := n,
                 L := Option.none, W := Option.none }
         else
-          -- in the `not y_is_mean` branch the code has set `sigma = None`, but then `ycf'` is `some`
-          match lmUnc L LB A sigma ycf' with
+          match lmUnc L LB A sigma ycf with
           | .error e => .error e
           | .ok W =>
             .ok { cov := cov, xb := xu, weights := weights, mu := mu, jitter := jitter, nObs := n,
